@@ -851,6 +851,9 @@ func (w *World) lemmaBody(lem *Lemma, args []SVal) *Term {
 		if s, ok := a.(SSlice); ok && s.Len != nil && s.Off != nil {
 			req = append(req, BVCmp("bvsle", BVInt(0, 64), s.Len), BVCmp("bvsle", BVInt(0, 64), s.Off),
 				BVCmp("bvsle", s.Len, BVInt(int64(1)<<60, 64)), BVCmp("bvsle", s.Off, BVInt(int64(1)<<60, 64)))
+			if wf := nestedWF(s); wf != True {
+				req = append(req, wf)
+			}
 		}
 	}
 	for _, c := range lem.Clauses {
